@@ -32,23 +32,37 @@ import (
 
 // ---- replay descriptor -------------------------------------------------
 
-type Fit struct{ IW, IH, BW, BH int }
+type Fit struct {
+	IW, IH, BW, BH int
+	// OX, OY: the top-left corner of the image's bounds (a crop of a larger
+	// picture keeps its coordinates; the image is still IW x IH pixels)
+	OX, OY int `json:",omitempty"`
+}
 
 type Block struct {
 	Chain  []c11.Level
 	W, H   int      // image size in pixels
 	Px     []uint32 // r<<24|g<<16|b<<8|a, straight alpha, row-major
 	Premul bool     `json:",omitempty"` // store as image.RGBA (premultiplied) instead of image.NRGBA
+	// Src: the kind of image.Image holding the pixels (see Sources); "" = image.NRGBA / image.RGBA.
+	// The pixels the oracle sees are what that image reports through At().RGBA().
+	Src string `json:",omitempty"`
+	// OX, OY: the top-left corner of the image's bounds; when not (0,0) the image is a SubImage
+	// crop out of a larger picture whose other pixels are opaque
+	OX, OY int `json:",omitempty"`
 	// Re: after the unscaled drawing the same image object is resized into this
 	// smaller box and drawn again (a second encoding of one image)
 	Re [2]int `json:",omitempty"`
 }
 
 type GOp struct {
-	K      string      // clear | draw | resize
+	K      string      // clear | draw | resize | resize2
 	I      int         `json:",omitempty"`
 	Chain  []c11.Level `json:",omitempty"`
 	BW, BH int         `json:",omitempty"`
+	// resize2: Resize(BW, BH) immediately followed by Resize(BW2, BH2) (two quick size changes);
+	// the second call is the one the application wants
+	BW2, BH2 int `json:",omitempty"`
 }
 
 type Frame struct {
@@ -65,6 +79,8 @@ type Scn struct {
 	Fits       []Fit    `json:",omitempty"`
 	Blocks     []Block  `json:",omitempty"`
 	Imgs       [][2]int `json:",omitempty"` // hist: pixel sizes of the images
+	Org        [][2]int `json:",omitempty"` // hist: top-left corners of the images' bounds (default 0,0)
+	Noisy      bool     `json:",omitempty"` // hist: the images are seeded noise (slow to encode) instead of one colour
 	Frames     []Frame  `json:",omitempty"`
 }
 
@@ -96,6 +112,9 @@ type session struct {
 	cv  *termcmd.Conv
 	red chan struct{}
 	key chan struct{}
+	// the fit / block record being executed (for the event logged when the library panics)
+	curN         int
+	curOX, curOY int
 }
 
 func start(ctx *Ctx, sc *Scn) (*session, error) {
@@ -111,7 +130,7 @@ func start(ctx *Ctx, sc *Scn) (*session, error) {
 	if err != nil {
 		return nil, err
 	}
-	se := &session{s: s, vx: s.Vx, red: make(chan struct{}, 1024), key: make(chan struct{}, 16)}
+	se := &session{s: s, vx: s.Vx, red: make(chan struct{}, 1024), key: make(chan struct{}, 16), curN: -1}
 	se.cv = termcmd.NewConv(ctx.G, ctx.L, false, false)
 	se.gfx = termcmd.NewGfx(se.cv)
 	go func() {
@@ -178,10 +197,153 @@ func (se *session) newImage(proto string, img image.Image) vaxis.Image {
 
 func async(proto string) bool { return proto == "kitty" || proto == "sixel" }
 
-func uniform(w, h int) image.Image {
-	img := image.NewRGBA(image.Rect(0, 0, w, h))
+func uniform(ox, oy, w, h int) image.Image {
+	img := image.NewRGBA(image.Rect(ox, oy, ox+w, oy+h))
 	for i := range img.Pix {
 		img.Pix[i] = [4]uint8{180, 40, 90, 255}[i%4]
+	}
+	return img
+}
+
+// noise is an opaque image that does not compress (its encoding takes time
+// proportional to its area).
+func noise(seed int64, ox, oy, w, h int) image.Image {
+	img := image.NewRGBA(image.Rect(ox, oy, ox+w, oy+h))
+	rng := rand.New(rand.NewSource(seed))
+	rng.Read(img.Pix)
+	for i := 3; i < len(img.Pix); i += 4 {
+		img.Pix[i] = 255
+	}
+	return img
+}
+
+// Sources are the kinds of image.Image a block image is built from. All are
+// legal inputs of NewHalfBlockImage / NewFullBlockImage; they differ in colour
+// model and in what At() answers outside the bounds (which no consumer may
+// rely on): transparent for the RGBA family, an opaque colour for paletted,
+// gray, CMYK and YCbCr images and for "alien" (an image type of the driver's
+// own that answers opaque magenta there).
+var Sources = []string{"", "nrgba64", "rgba64", "paletted", "gray", "gray16", "cmyk", "ycbcr", "ycbcr420", "nycbcra", "alien"}
+
+type alien struct {
+	r  image.Rectangle
+	px []color.NRGBA
+}
+
+func (a *alien) ColorModel() color.Model { return color.NRGBAModel }
+func (a *alien) Bounds() image.Rectangle { return a.r }
+func (a *alien) At(x, y int) color.Color {
+	if !(image.Point{X: x, Y: y}).In(a.r) {
+		return color.NRGBA{R: 255, B: 255, A: 255}
+	}
+	return a.px[(y-a.r.Min.Y)*a.r.Dx()+x-a.r.Min.X]
+}
+
+// build makes the source image: w x h pixels px (straight alpha, row-major)
+// with the top-left corner at (ox, oy).
+func build(src string, premul bool, ox, oy, w, h int, px []uint32) image.Image {
+	rect := image.Rect(ox, oy, ox+w, oy+h)
+	whole := rect
+	if ox != 0 || oy != 0 {
+		whole = rect.Inset(-2) // the picture the image is cropped out of
+	}
+	at := func(x, y int) color.NRGBA {
+		if !(image.Point{X: x, Y: y}).In(rect) {
+			return color.NRGBA{R: 250, G: 5, B: 250, A: 255}
+		}
+		p := px[(y-oy)*w+x-ox]
+		return color.NRGBA{R: uint8(p >> 24), G: uint8(p >> 16), B: uint8(p >> 8), A: uint8(p)}
+	}
+	type subber interface {
+		SubImage(image.Rectangle) image.Image
+	}
+	var img image.Image
+	switch src {
+	case "alien":
+		a := &alien{r: rect, px: make([]color.NRGBA, 0, w*h)}
+		for y := rect.Min.Y; y < rect.Max.Y; y++ {
+			for x := rect.Min.X; x < rect.Max.X; x++ {
+				a.px = append(a.px, at(x, y))
+			}
+		}
+		return a
+	case "ycbcr", "ycbcr420", "nycbcra":
+		ratio := image.YCbCrSubsampleRatio444
+		if src == "ycbcr420" && whole.Min.X >= 0 && whole.Min.Y >= 0 {
+			// (the standard library's chroma offsets are wrong for negative odd
+			// coordinates: such a picture is stored without subsampling)
+			ratio = image.YCbCrSubsampleRatio420
+		}
+		var yc *image.YCbCr
+		var na *image.NYCbCrA
+		if src == "nycbcra" {
+			na = image.NewNYCbCrA(whole, ratio)
+			yc = &na.YCbCr
+			img = na
+		} else {
+			yc = image.NewYCbCr(whole, ratio)
+			img = yc
+		}
+		for y := whole.Min.Y; y < whole.Max.Y; y++ {
+			for x := whole.Min.X; x < whole.Max.X; x++ {
+				c := at(x, y)
+				yy, cb, cr := color.RGBToYCbCr(c.R, c.G, c.B)
+				yc.Y[yc.YOffset(x, y)] = yy
+				yc.Cb[yc.COffset(x, y)], yc.Cr[yc.COffset(x, y)] = cb, cr
+				if na != nil {
+					na.A[na.AOffset(x, y)] = c.A
+				}
+			}
+		}
+	default:
+		var d interface {
+			image.Image
+			Set(x, y int, c color.Color)
+		}
+		switch src {
+		case "nrgba64":
+			d = image.NewNRGBA64(whole)
+		case "rgba64":
+			d = image.NewRGBA64(whole)
+		case "gray":
+			d = image.NewGray(whole)
+		case "gray16":
+			d = image.NewGray16(whole)
+		case "cmyk":
+			d = image.NewCMYK(whole)
+		case "paletted":
+			// the palette: the colours of the picture, an opaque one first when there is one
+			var pal, clear color.Palette
+			seen := map[color.NRGBA]bool{}
+			for y := whole.Min.Y; y < whole.Max.Y; y++ {
+				for x := whole.Min.X; x < whole.Max.X; x++ {
+					if c := at(x, y); !seen[c] && len(seen) < 256 {
+						seen[c] = true
+						if c.A == 255 {
+							pal = append(pal, c)
+						} else {
+							clear = append(clear, c)
+						}
+					}
+				}
+			}
+			d = image.NewPaletted(whole, append(pal, clear...))
+		default:
+			if premul {
+				d = image.NewRGBA(whole)
+			} else {
+				d = image.NewNRGBA(whole)
+			}
+		}
+		for y := whole.Min.Y; y < whole.Max.Y; y++ {
+			for x := whole.Min.X; x < whole.Max.X; x++ {
+				d.Set(x, y, at(x, y))
+			}
+		}
+		img = d
+	}
+	if whole != rect {
+		img = img.(subber).SubImage(rect)
 	}
 	return img
 }
@@ -207,7 +369,7 @@ func Run(ctx *Ctx, sc *Scn) (evs []trace.Ev, note string) {
 	defer func() {
 		if r := recover(); r != nil {
 			note = fmt.Sprintf("panic: %v", r)
-			evs = append(evs, trace.Ev{"ev": "panic", "what": sc.Kind})
+			evs = append(evs, trace.Ev{"ev": "panic", "what": sc.Kind, "n": se.curN, "ox": se.curOX, "oy": se.curOY})
 		}
 	}()
 	switch sc.Kind {
@@ -226,7 +388,8 @@ func Run(ctx *Ctx, sc *Scn) (evs []trace.Ev, note string) {
 func (se *session) runFits(sc *Scn) []trace.Ev {
 	var evs []trace.Ev
 	for n, f := range sc.Fits {
-		im := se.newImage(sc.Proto, uniform(f.IW, f.IH))
+		se.curN, se.curOX, se.curOY = n, f.OX, f.OY
+		im := se.newImage(sc.Proto, uniform(f.OX, f.OY, f.IW, f.IH))
 		im.Resize(f.BW, f.BH)
 		done := true
 		ow, oh := im.CellSize() // kitty computes the size synchronously
@@ -247,7 +410,7 @@ func (se *session) runFits(sc *Scn) []trace.Ev {
 			cw, ch = 1, 2 // block images: a cell is one pixel wide and two high
 		}
 		evs = append(evs, trace.Ev{"ev": "fit", "n": n, "iw": f.IW, "ih": f.IH, "bw": f.BW, "bh": f.BH,
-			"cw": cw, "ch": ch, "ow": ow, "oh": oh, "done": done})
+			"cw": cw, "ch": ch, "ow": ow, "oh": oh, "done": done, "ox": f.OX, "oy": f.OY})
 		im.Destroy()
 		se.s.Con.Take()
 	}
@@ -258,19 +421,15 @@ func (se *session) runFits(sc *Scn) []trace.Ev {
 
 var sentinel = vaxis.Cell{Character: vaxis.Character{Grapheme: ".", Width: 1}, Style: vaxis.Style{Background: vaxis.IndexColor(1)}}
 
-func (b *Block) image() image.Image {
-	if b.Premul {
-		img := image.NewRGBA(image.Rect(0, 0, b.W, b.H))
-		for i, p := range b.Px {
-			img.Set(i%b.W, i/b.W, color.NRGBA{uint8(p >> 24), uint8(p >> 16), uint8(p >> 8), uint8(p)})
+// image builds the source image; a failure to do so is the driver's (or the
+// standard library's), never the library's under test.
+func (b *Block) image() (img image.Image, err error) {
+	defer func() {
+		if r := recover(); r != nil {
+			err = fmt.Errorf("building the source image: %v", r)
 		}
-		return img
-	}
-	img := image.NewNRGBA(image.Rect(0, 0, b.W, b.H))
-	for i, p := range b.Px {
-		img.SetNRGBA(i%b.W, i/b.W, color.NRGBA{uint8(p >> 24), uint8(p >> 16), uint8(p >> 8), uint8(p)})
-	}
-	return img
+	}()
+	return build(b.Src, b.Premul, b.OX, b.OY, b.W, b.H, b.Px), nil
 }
 
 func (se *session) frame(ctx *Ctx, tag string, refresh bool) []trace.Ev {
@@ -294,7 +453,11 @@ func (se *session) runBlocks(ctx *Ctx, sc *Scn) []trace.Ev {
 	}
 	refill()
 	for n, b := range sc.Blocks {
-		src := b.image()
+		se.curN, se.curOX, se.curOY = n, b.OX, b.OY
+		src, err := b.image()
+		if err != nil {
+			return append(evs, trace.Ev{"ev": "abort", "what": err.Error()})
+		}
 		im := se.newImage(sc.Proto, src)
 		// a box the image fits in: the cells then show the source pixels themselves
 		im.Resize(b.W, (b.H+1)/2)
@@ -303,13 +466,13 @@ func (se *session) runBlocks(ctx *Ctx, sc *Scn) []trace.Ev {
 		evs = append(evs, se.frame(ctx, fmt.Sprintf("block %d", n), false)...)
 		px := make([][]int, 0, len(b.Px))
 		for i := range b.Px {
-			// the source pixel as the standard colour model reports it:
-			// alpha-premultiplied, 16 bits per channel
-			r, g, bl, a := src.At(i%b.W, i/b.W).RGBA()
+			// the source pixel (counted from the top-left corner of the image) as the
+			// standard colour model reports it: alpha-premultiplied, 16 bits per channel
+			r, g, bl, a := src.At(b.OX+i%b.W, b.OY+i/b.W).RGBA()
 			px = append(px, []int{int(r), int(g), int(bl), int(a)})
 		}
 		evs = append(evs, trace.Ev{"ev": "bcheck", "n": n, "proto": sc.Proto, "chain": chainEv(b.Chain),
-			"iw": b.W, "ih": b.H, "ow": ow, "oh": oh, "px": px, "gl": gl})
+			"iw": b.W, "ih": b.H, "ow": ow, "oh": oh, "px": px, "gl": gl, "ox": b.OX, "oy": b.OY})
 		refill()
 		if b.Re[0] > 0 && b.Re[1] > 0 {
 			im.Resize(b.Re[0], b.Re[1])
@@ -317,7 +480,7 @@ func (se *session) runBlocks(ctx *Ctx, sc *Scn) []trace.Ev {
 			im.Draw(c11.Build(se.vx, b.Chain))
 			evs = append(evs, se.frame(ctx, fmt.Sprintf("block %d again", n), false)...)
 			evs = append(evs, trace.Ev{"ev": "bscaled", "n": n, "proto": sc.Proto, "chain": chainEv(b.Chain),
-				"iw": b.W, "ih": b.H, "bw": b.Re[0], "bh": b.Re[1], "ow": rw, "oh": rh, "px": px, "gl": gl})
+				"iw": b.W, "ih": b.H, "bw": b.Re[0], "bh": b.Re[1], "ow": rw, "oh": rh, "px": px, "gl": gl, "ox": b.OX, "oy": b.OY})
 			refill()
 		}
 	}
@@ -326,10 +489,24 @@ func (se *session) runBlocks(ctx *Ctx, sc *Scn) []trace.Ev {
 
 // ---- frame histories ------------------------------------------------------
 
+// doubleGrace: how long after the Redraw of a double Resize the driver waits
+// for a second one (the encodings used there take a few tens of milliseconds).
+const doubleGrace = 1200 * time.Millisecond
+
 func (se *session) runHist(ctx *Ctx, sc *Scn) (evs []trace.Ev, note string) {
 	imgs := make([]vaxis.Image, len(sc.Imgs))
+	cropped := false
 	for i, sz := range sc.Imgs {
-		imgs[i] = se.newImage(sc.Proto, uniform(sz[0], sz[1]))
+		var o [2]int
+		if i < len(sc.Org) {
+			o = sc.Org[i]
+		}
+		cropped = cropped || o != [2]int{}
+		if sc.Noisy {
+			imgs[i] = se.newImage(sc.Proto, noise(int64(i+1), o[0], o[1], sz[0], sz[1]))
+		} else {
+			imgs[i] = se.newImage(sc.Proto, uniform(o[0], o[1], sz[0], sz[1]))
+		}
 	}
 	cols, rows := sc.Cols, sc.Rows
 	type placed struct {
@@ -339,7 +516,8 @@ func (se *session) runHist(ctx *Ctx, sc *Scn) (evs []trace.Ev, note string) {
 		x0, y0 int // origin and extent, only for keeping sixel images apart
 	}
 	var want []placed
-	gen := make([]int, len(imgs)) // how often each image has been (re-)encoded
+	gen := make([]int, len(imgs))  // how often each image has been (re-)encoded
+	dbl := make([]bool, len(imgs)) // its latest encoding was asked for right after another one
 	abort := func(what string) ([]trace.Ev, string) {
 		return append(evs, trace.Ev{"ev": "abort", "what": what}), "abort: " + what
 	}
@@ -365,11 +543,41 @@ func (se *session) runHist(ctx *Ctx, sc *Scn) (evs []trace.Ev, note string) {
 				se.vx.Window().Clear()
 				want = nil
 			case "resize":
+				for len(se.red) > 0 {
+					<-se.red
+				}
 				imgs[op.I].Resize(op.BW, op.BH)
 				gen[op.I]++
+				dbl[op.I] = false
 				if !se.waitRedraw(5 * time.Second) {
 					return abort("no Redraw after Resize")
 				}
+			case "resize2":
+				for len(se.red) > 0 {
+					<-se.red
+				}
+				imgs[op.I].Resize(op.BW, op.BH)
+				imgs[op.I].Resize(op.BW2, op.BH2)
+				gen[op.I] += 2
+				dbl[op.I] = true
+				if !se.waitRedraw(10 * time.Second) {
+					return abort("no Redraw after Resize")
+				}
+				// the superseded encoding may or may not announce itself when it is over;
+				// either way it gets the time to finish before the application draws
+				se.waitRedraw(doubleGrace)
+				// the size the image now reports has to be a fit of the box of the second call
+				ow, oh := imgs[op.I].CellSize()
+				tag := "double-resize"
+				var o [2]int
+				if op.I < len(sc.Org) {
+					o = sc.Org[op.I]
+				}
+				if o != [2]int{} {
+					tag += "+origin"
+				}
+				evs = append(evs, trace.Ev{"ev": "fit", "n": fi, "iw": sc.Imgs[op.I][0], "ih": sc.Imgs[op.I][1], "bw": op.BW2, "bh": op.BH2,
+					"cw": sc.CW, "ch": sc.CH, "ow": ow, "oh": oh, "done": true, "ox": o[0], "oy": o[1], "ctx": tag})
 			case "draw":
 				w, h := imgs[op.I].CellSize()
 				win := c11.Build(se.vx, op.Chain)
@@ -398,7 +606,18 @@ func (se *session) runHist(ctx *Ctx, sc *Scn) (evs []trace.Ev, note string) {
 		for _, p := range want {
 			wl = append(wl, map[string]any{"k": p.k, "g": p.g, "chain": chainEv(p.chain), "w": p.w, "h": p.h})
 		}
-		evs = append(evs, trace.Ev{"ev": "gframe", "n": fi, "refresh": refresh, "want": wl})
+		// context of the frame (for the rejection signature only)
+		var tags []string
+		for _, p := range want {
+			if dbl[p.k] {
+				tags = append(tags, "double-resize")
+				break
+			}
+		}
+		if cropped {
+			tags = append(tags, "origin")
+		}
+		evs = append(evs, trace.Ev{"ev": "gframe", "n": fi, "refresh": refresh, "want": wl, "ctx": strings.Join(tags, "+")})
 	}
 	return evs, ""
 }
@@ -415,6 +634,19 @@ type fitBatch struct {
 	cur        []Fit
 	out        []*Scn
 	cols, rows int
+}
+
+// origin: one image in four is a crop that kept its coordinates (top-left
+// corner anywhere from lo to hi, not (0,0)).
+func origin(rng *rand.Rand, lo, hi int) (int, int) {
+	if rng.Intn(4) != 0 {
+		return 0, 0
+	}
+	for {
+		if x, y := lo+rng.Intn(hi-lo+1), lo+rng.Intn(hi-lo+1); x != 0 || y != 0 {
+			return x, y
+		}
+	}
 }
 
 func (b *fitBatch) add(f Fit) {
@@ -445,7 +677,9 @@ func GenFitBlocks(rng *rand.Rand, keep float64) []*Scn {
 						if keep < 1 && rng.Float64() >= keep {
 							continue
 						}
-						b.add(Fit{iw, ih, bw, bh})
+						f := Fit{IW: iw, IH: ih, BW: bw, BH: bh}
+						f.OX, f.OY = origin(rng, -6, 12)
+						b.add(f)
 					}
 				}
 			}
@@ -478,7 +712,9 @@ func GenFitPixel(rng *rand.Rand, keep float64) []*Scn {
 							if rng.Intn(2) == 0 {
 								ih -= rng.Intn(g[1])
 							}
-							b.add(Fit{iw, ih, bw, bh})
+							f := Fit{IW: iw, IH: ih, BW: bw, BH: bh}
+							f.OX, f.OY = origin(rng, -2*g[0], 3*g[1])
+							b.add(f)
 						}
 					}
 				}
@@ -493,11 +729,17 @@ func GenFitPixel(rng *rand.Rand, keep float64) []*Scn {
 // FixedFits: the corner cases (equal scale factors, extreme aspect ratios).
 func FixedFits() []*Scn {
 	var out []*Scn
-	fits := []Fit{{4, 8, 2, 2}, {6, 12, 3, 3}, {12, 24, 1, 1}, {12, 24, 6, 6}, {12, 1, 1, 1}, {1, 24, 1, 1}, {7, 7, 7, 3}, {3, 5, 3, 3}, {12, 2, 11, 1}}
+	F := func(iw, ih, bw, bh int) Fit { return Fit{IW: iw, IH: ih, BW: bw, BH: bh} }
+	at := func(f Fit, ox, oy int) Fit { f.OX, f.OY = ox, oy; return f }
+	fits := []Fit{F(4, 8, 2, 2), F(6, 12, 3, 3), F(12, 24, 1, 1), F(12, 24, 6, 6), F(12, 1, 1, 1), F(1, 24, 1, 1), F(7, 7, 7, 3), F(3, 5, 3, 3), F(12, 2, 11, 1),
+		// crops that kept their coordinates: fitting their box, not fitting it, above/left of the origin
+		at(F(2, 2, 10, 10), 4, 4), at(F(2, 2, 3, 3), 4, 4), at(F(2, 2, 2, 1), 4, 4), at(F(6, 12, 3, 3), 5, 0), at(F(6, 12, 3, 3), 0, 7),
+		at(F(4, 8, 8, 8), -2, -3), at(F(4, 8, 2, 2), -9, -9), at(F(7, 7, 7, 3), 1, 1)}
 	for _, proto := range []string{"half", "full"} {
 		out = append(out, &Scn{Kind: "fit", Proto: proto, Cols: 10, Rows: 4, CW: 8, CH: 16, Fits: fits})
 	}
-	pix := []Fit{{32, 64, 2, 2}, {32, 32, 2, 1}, {80, 160, 5, 5}, {96, 16, 1, 1}, {8, 192, 1, 1}, {31, 63, 2, 2}, {33, 65, 2, 2}}
+	pix := []Fit{F(32, 64, 2, 2), F(32, 32, 2, 1), F(80, 160, 5, 5), F(96, 16, 1, 1), F(8, 192, 1, 1), F(31, 63, 2, 2), F(33, 65, 2, 2),
+		at(F(16, 16, 10, 10), 32, 32), at(F(16, 16, 2, 1), 8, 16), at(F(32, 64, 2, 2), 5, 3), at(F(80, 160, 5, 5), 0, 40), at(F(32, 32, 6, 6), -8, -16), at(F(31, 63, 2, 2), -40, -70)}
 	for _, proto := range []string{"kitty", "sixel"} {
 		out = append(out, &Scn{Kind: "fit", Proto: proto, Cols: 12, Rows: 6, CW: 8, CH: 16, Fits: pix})
 	}
@@ -544,6 +786,10 @@ func GenBlocks(rng *rand.Rand, alphas []int, perAlpha int) []*Scn {
 			w := 1 + rng.Intn(8)
 			h := 1 + rng.Intn(5)
 			b := Block{W: w, H: h, Px: make([]uint32, w*h), Premul: rng.Intn(4) == 0}
+			if rng.Intn(2) == 0 {
+				b.Src = Sources[rng.Intn(len(Sources))]
+			}
+			b.OX, b.OY = origin(rng, -6, 12)
 			for x := 0; x < w; x++ {
 				for y := 0; y < h; y += 2 {
 					p := pairs[i%len(pairs)]
@@ -604,6 +850,39 @@ func FixedBlocks() []*Scn {
 			}
 		}
 		out = append(out, &Scn{Kind: "block", Proto: proto, Cols: 10, Rows: 4, CW: 8, CH: 16, Blocks: blocks})
+		// every kind of source image, odd pixel heights (the last cell row covers one pixel
+		// row only) and even ones, at (0,0) and as crops that kept their coordinates
+		var kinds []Block
+		for si, src := range Sources {
+			for v, h := range []int{1, 3, 2, 5} {
+				w := 3 + (si+v)%4
+				b := Block{Chain: full, W: w, H: h, Px: make([]uint32, w*h), Src: src}
+				for i := range b.Px {
+					c := sampleColours[(i+si+v)%len(sampleColours)]
+					a := 255
+					if (i+v)%5 == 4 {
+						a = []int{0, 49, 50, 200}[(i/5+si)%4]
+					}
+					b.Px[i] = pack(c[0], c[1], c[2], a)
+				}
+				switch v {
+				case 1:
+					b.OX, b.OY = 4, 4
+				case 2:
+					b.OX, b.OY = -3, -2
+				case 3:
+					b.OX, b.OY = 0, 6
+				}
+				kinds = append(kinds, b)
+			}
+		}
+		for i := 0; i < len(kinds); i += 11 {
+			j := i + 11
+			if j > len(kinds) {
+				j = len(kinds)
+			}
+			out = append(out, &Scn{Kind: "block", Proto: proto, Cols: 10, Rows: 4, CW: 8, CH: 16, Blocks: kinds[i:j]})
+		}
 	}
 	return out
 }
@@ -626,6 +905,11 @@ func RescaleBlocks(rng *rand.Rand, thorough bool) []*Scn {
 				}
 				w, h := 8, 8
 				b := Block{Chain: full, W: w, H: h, Px: make([]uint32, w*h), Premul: v%2 == 1, Re: box}
+				if (v+bi)%4 == 3 {
+					// a crop that kept its coordinates, of several kinds of image
+					b.OX, b.OY = []int{3, 0, -5}[bi%3], []int{5, 9, -2}[v%3]
+					b.Src = []string{"", "paletted", "nycbcra", "alien"}[(v+bi)/4%4]
+				}
 				c := sampleColours[(v+bi)%len(sampleColours)]
 				clearA := []int{0, 20, 49}[(v/2+bi)%3]
 				for y := 0; y < h; y++ {
@@ -710,6 +994,12 @@ func GenHist(rng *rand.Rand, proto string, n int) []*Scn {
 		for i := 0; i < nimg; i++ {
 			sc.Imgs = append(sc.Imgs, [2]int{g[0] * (1 + rng.Intn(5)), g[1] * (1 + rng.Intn(3))})
 		}
+		if rng.Intn(5) == 0 {
+			// the images are crops that kept their coordinates
+			for i := 0; i < nimg; i++ {
+				sc.Org = append(sc.Org, [2]int{rng.Intn(2 * g[0]), 1 + rng.Intn(2*g[1])})
+			}
+		}
 		first := Frame{End: "render"}
 		for i := 0; i < nimg; i++ {
 			bw, bh := 2+rng.Intn(4), 1+rng.Intn(3)
@@ -782,6 +1072,60 @@ func GenHist(rng *rand.Rand, proto string, n int) []*Scn {
 	return out
 }
 
+// GenDoubleResize: kitty and sixel histories whose image is resized twice in a row (two
+// quick size changes): first into a box it fits unscaled (a large encoding
+// that takes long), then into a small box (a short one), or the other way
+// round. Whichever encoding finishes first, what the terminal shows
+// afterwards has to be the image of the second call. The image is then
+// drawn, kept, moved and refreshed.
+func GenDoubleResize(rng *rand.Rand, n int) []*Scn {
+	var out []*Scn
+	for s := 0; s < n; s++ {
+		g := Geoms[rng.Intn(len(Geoms))]
+		sc := &Scn{Kind: "hist", Proto: []string{"kitty", "sixel"}[s/2%2], Cols: 10 + rng.Intn(3), Rows: 5 + rng.Intn(2), CW: g[0], CH: g[1], Noisy: true}
+		iw, ih := 400+rng.Intn(120), 280+rng.Intn(80)
+		if sc.Proto == "sixel" {
+			iw, ih = iw/2, ih/2 // a sixel encoding takes longer
+		}
+		sc.Imgs = [][2]int{{iw, ih}}
+		if rng.Intn(4) == 0 {
+			sc.Org = [][2]int{{rng.Intn(30), 1 + rng.Intn(30)}}
+		}
+		own := [2]int{(iw + g[0] - 1) / g[0], (ih + g[1] - 1) / g[1]}
+		bw, bh := 2+rng.Intn(4), 1+rng.Intn(3)
+		for vanishes(iw, ih, bw, bh, g[0], g[1]) {
+			bw, bh = bw+1, bh+1
+		}
+		op := GOp{K: "resize2", I: 0, BW: own[0], BH: own[1], BW2: bw, BH2: bh}
+		if s%8 == 3 || s%8 == 5 {
+			// short encoding first; the large one wanted (too large for the screen: never shown)
+			op = GOp{K: "resize2", I: 0, BW: bw, BH: bh, BW2: own[0], BH2: own[1]}
+		}
+		sc.Frames = append(sc.Frames, Frame{Ops: []GOp{op}, End: "render"})
+		pos := randWin(rng, sc.Cols, sc.Rows)
+		for fi, nf := 0, 2+rng.Intn(4); fi < nf; fi++ {
+			f := Frame{Ops: []GOp{{K: "clear"}}, End: "render"}
+			switch rng.Intn(6) {
+			case 0:
+				f.End = "refresh"
+			case 1, 2:
+				pos = randWin(rng, sc.Cols, sc.Rows)
+			case 3:
+				if fi > 0 { // a single Resize after the double one
+					f.Ops = append(f.Ops, GOp{K: "resize", I: 0, BW: bw + 1, BH: bh + 1})
+				}
+			}
+			if pos == nil {
+				pos = []c11.Level{}
+			}
+			f.Ops = append(f.Ops, GOp{K: "draw", I: 0, Chain: pos})
+			sc.Frames = append(sc.Frames, f)
+		}
+		out = append(out, sc)
+	}
+	return out
+}
+
 // FixedHist: hand-written histories.
 func FixedHist() []*Scn {
 	var out []*Scn
@@ -826,6 +1170,37 @@ func FixedHist() []*Scn {
 			{Ops: []GOp{cl, {K: "draw", I: 0, Chain: in}}, End: "termsize", Cols: 11, Rows: 5},
 			{Ops: []GOp{cl, {K: "draw", I: 0, Chain: in}}, End: "render"},
 		}})
+		// crops that kept their coordinates: add, keep, move, resize, refresh
+		out = append(out, &Scn{Kind: "hist", Proto: proto, Cols: 12, Rows: 6, CW: 8, CH: 16, Imgs: [][2]int{{32, 32}, {16, 16}}, Org: [][2]int{{8, 16}, {5, 40}}, Frames: []Frame{
+			{Ops: []GOp{{K: "resize", I: 0, BW: 6, BH: 3}, {K: "resize", I: 1, BW: 2, BH: 1}}, End: "render"},
+			{Ops: []GOp{cl, {K: "draw", I: 0, Chain: in}, {K: "draw", I: 1, Chain: []c11.Level{{"new", 8, 4, 3, 2}}}}, End: "render"},
+			{Ops: []GOp{cl, {K: "draw", I: 0, Chain: in}, {K: "draw", I: 1, Chain: []c11.Level{{"new", 8, 4, 3, 2}}}}, End: "render"},
+			{Ops: []GOp{cl, {K: "resize", I: 0, BW: 2, BH: 1}, {K: "draw", I: 0, Chain: moved}}, End: "render"},
+			{Ops: []GOp{cl, {K: "draw", I: 0, Chain: moved}}, End: "refresh"},
+		}})
 	}
+	// two Resize calls in a row: a long encoding (the noise image unscaled: 60 x 20 cells) then a short
+	// one (into 4 x 2 cells), drawn, kept, moved, refreshed; then (kitty) the other way round with an
+	// image that fits the screen either way (240 x 240 px in cells of 20 x 40: 12 x 6)
+	cl := GOp{K: "clear"}
+	for _, proto := range []string{"kitty", "sixel"} {
+		sz := [2]int{480, 320}
+		if proto == "sixel" {
+			sz = [2]int{240, 160} // a sixel encoding takes longer
+		}
+		out = append(out, &Scn{Kind: "hist", Proto: proto, Cols: 12, Rows: 6, CW: sz[0] / 60, CH: sz[1] / 20, Noisy: true, Imgs: [][2]int{sz}, Frames: []Frame{
+			{Ops: []GOp{{K: "resize2", I: 0, BW: 60, BH: 20, BW2: 4, BH2: 2}}, End: "render"},
+			{Ops: []GOp{cl, {K: "draw", I: 0, Chain: in}}, End: "render"},
+			{Ops: []GOp{cl, {K: "draw", I: 0, Chain: in}}, End: "render"},
+			{Ops: []GOp{cl, {K: "draw", I: 0, Chain: moved}}, End: "render"},
+			{Ops: []GOp{cl, {K: "draw", I: 0, Chain: moved}}, End: "refresh"},
+		}})
+	}
+	out = append(out, &Scn{Kind: "hist", Proto: "kitty", Cols: 14, Rows: 7, CW: 20, CH: 40, Noisy: true, Imgs: [][2]int{{240, 240}}, Frames: []Frame{
+		{Ops: []GOp{{K: "resize2", I: 0, BW: 2, BH: 1, BW2: 12, BH2: 6}}, End: "render"},
+		{Ops: []GOp{cl, {K: "draw", I: 0, Chain: []c11.Level{{"new", 1, 0, 13, 7}}}}, End: "render"},
+		{Ops: []GOp{cl, {K: "resize2", I: 0, BW: 12, BH: 6, BW2: 2, BH2: 1}, {K: "draw", I: 0, Chain: in}}, End: "render"},
+		{Ops: []GOp{cl, {K: "draw", I: 0, Chain: moved}}, End: "render"},
+	}})
 	return out
 }
